@@ -165,7 +165,7 @@ impl Prop for C13 {
 
     fn profiles(tier: Tier) -> Vec<Profile> {
         match tier {
-            Tier::Quick => vec![prof("wild", 150_000), prof("fair", 50_000), prof("binomial", 50_000), prof("trigger", 1)],
+            Tier::Quick => vec![prof("wild", 300_000), prof("fair", 100_000), prof("binomial", 100_000), prof("trigger", 1)],
             Tier::Thorough => vec![prof("wild", 8_000_000), prof("fair", 3_000_000), prof("binomial", 3_000_000), prof("trigger", 1)],
         }
     }
